@@ -5,7 +5,7 @@ theorem nextEpochExt_some {P : Params} {e o : EpochExt} {hn hc u ms : Nat}
     (h : nextEpochExt P e hn hc u ms = some o) :
     ∃ adj lor L' bound den nd R,
       adjustedHashRate (compactToDifficulty hc) e.length u (durationSecs ms) e.prevHR = some adj ∧
-      Rat.new u e.length = some lor ∧
+      URat.new u e.length = some lor ∧
       nextLength P.ort P.T e.length u (durationSecs ms) lor = some (L', bound) ∧
       diffDenominator P.ort P.T e.length (durationSecs ms) L' bound lor = some den ∧
       nextDiff adj P.T den = some nd ∧
